@@ -15,3 +15,115 @@ def spawn_roots(model, cg):
 
 def reach_of(cg, root):
     return cg.reach([root])
+
+
+# ------------------------------------------------------------------ reachability with constant-parameter pruning (k=1)
+
+import ast as _ast
+from .util import cfg_of as _cfg_of, guarded_by_edge as _guarded, compare_parts as _cmp, strip_not as _strip
+
+
+def _const_bindings(call, callee):
+    """{param: python constant} for parameters of `callee` that the call binds to a literal (explicitly or by default)"""
+    out = {}
+    a = callee.node.args
+    params = [x.arg for x in a.posonlyargs + a.args]
+    defaults = dict(zip(reversed(params), reversed(a.defaults)))
+    offset = 1 if (callee.cls is not None and params) else 0
+    given = {}
+    if call is not None:
+        for i, v in enumerate(call.args):
+            if isinstance(v, _ast.Starred):
+                return {}
+            if i + offset < len(params):
+                given[params[i + offset]] = v
+        for kw in call.keywords:
+            if kw.arg is None:
+                return {}
+            given[kw.arg] = kw.value
+    for p in params[offset:]:
+        v = given.get(p, defaults.get(p))
+        if isinstance(v, _ast.Constant):
+            out[p] = v.value
+    return out
+
+
+def _eval_test(test, consts):
+    """True/False when the test is decided by constant parameters, else None"""
+    inner, pol = _strip(test)
+    if isinstance(inner, _ast.Name) and inner.id in consts:
+        return bool(consts[inner.id]) == pol
+    cp = _cmp(inner)
+    if cp and isinstance(cp[0], _ast.Name) and cp[0].id in consts and isinstance(cp[2], _ast.Constant):
+        v, c = consts[cp[0].id], cp[2].value
+        if cp[1] in (_ast.Is, _ast.Eq):
+            r = (v is c) if cp[1] is _ast.Is and c is None else (v == c)
+        elif cp[1] in (_ast.IsNot, _ast.NotEq):
+            r = (v is not c) if cp[1] is _ast.IsNot and c is None else (v != c)
+        else:
+            return None
+        return r == pol
+    return None
+
+
+def reach_pruned(cg, root):
+    """functions reachable from `root`; an out-edge of a callee is dropped when it lies on a branch that the constant arguments of
+    the call that brought us there make infeasible.  Returns {Func: set of frozenset(const bindings)}"""
+    seen = {}
+    todo = [(root, frozenset())]
+    while todo:
+        f, ctx = todo.pop()
+        if isinstance(f, str):
+            continue
+        if ctx in seen.setdefault(f, set()):
+            continue
+        seen[f].add(ctx)
+        consts = dict(ctx)
+        g = _cfg_of(f) if consts else None
+        # a parameter that is reassigned in the function is not a constant
+        if consts:
+            stores = {t.id for n in _ast.walk(f.node) for t in [n] if isinstance(n, _ast.Name) and isinstance(n.ctx, _ast.Store)}
+            consts = {k: v for k, v in consts.items() if k not in stores}
+        for t, c, how in cg.edges.get(f, []):
+            if isinstance(t, str):
+                continue
+            # name-based resolution of an untyped receiver is kept only for the queue-add methods (q.append in the delivery threads);
+            # for generic names (clear, get, start, ...) it would connect an Event.clear() to every clear() of the package
+            if how == 'by-name' and not (isinstance(c.func, _ast.Attribute) and c.func.attr in ('append', 'appendleft')):
+                continue
+            if how == 'by-name' and t.owner_class is not None and t.owner_class.name in ('SignalSource', 'OrderedDictWithParams'):
+                continue
+            feasible = True
+            if consts:
+                node = None
+                for n in g.nodes:
+                    if n.kind in ('entry', 'exit', 'xexit', 'def'):
+                        continue
+                    if any(x is c for x in n.walk()):
+                        node = n
+                        break
+                if node is not None:
+                    for tn in g.nodes:
+                        if tn.kind != 'test':
+                            continue
+                        ev = _eval_test(tn.ast, consts)
+                        if ev is None:
+                            continue
+                        dead = 'false' if ev else 'true'
+                        if _guarded(g, node, tn, dead):
+                            feasible = False
+                            break
+            if feasible:
+                todo.append((t, frozenset(_const_bindings(c, t).items())))
+    return seen
+
+
+def root_writes(model, cg, fx, root):
+    """[(function, root-variable-relative path, mutator, node)] for every direct write made by a function reachable from the thread root"""
+    out = []
+    for f in reach_pruned(cg, root):
+        rv = cg.receiver_var(f)
+        for r, path, node, how in fx.own_writes(f):
+            if rv and r == rv:
+                out.append((f, path, how, node))
+    return out
